@@ -210,6 +210,10 @@ func lexgenRun(c *Ctx, variant string) {
 					}
 					if variant != "greedy" {
 						tag = "C08"
+						if !strings.HasSuffix(outs[i], " ok") {
+							// EOF not reached within the token budget, hang or crash: also a C11 input
+							tag = "C08,C11"
+						}
 					}
 					or = fmt.Sprintf("%s: token stream differs from the rule-level definition: want `%s` got `%s` | input bytes %v | spec: %s", tag, want, outs[i], in, specTxt)
 				}
